@@ -236,6 +236,16 @@ def make_data(spec, f):
                 mark[ii] = True
                 blocked |= _nd.binary_dilation(mark, iterations=2, structure=np.ones((3,) * len(shape)))
         return data
+    if t == "pixels" and len(shape) == 2 and f.get("seed", 0) % 2 == 0:
+        # staircases of single cells that touch only at their corners (separate domains under face connectivity),
+        # long enough to run across the periodic boundaries
+        data = np.zeros(shape)
+        for _ in range(int(r.integers(1, 4))):
+            i0, j0 = int(r.integers(shape[0])), int(r.integers(shape[1]))
+            step = int(r.choice([-1, 1]))
+            for k in range(int(r.integers(3, max(4, min(shape) - 1)))):
+                data[(i0 + k) % shape[0], (j0 + step * k) % shape[1]] = 1.0
+        return data
     if t == "pixels":
         data = np.zeros(shape)
         blocked = np.zeros(shape, bool)
